@@ -20,6 +20,13 @@ enum Msg {
     Fwd(u64),
 }
 
+/// a message type the callee does NOT accept (C02: wrong-type sends are rejected without
+/// disturbing the actor — through `cast`, `send_message` and `call` alike)
+enum Wrong {
+    C,
+    W(RpcReplyPort<u64>),
+}
+
 #[derive(Clone, Copy, Debug)]
 enum Act {
     Reply(u64),
@@ -390,6 +397,37 @@ impl World {
         Self::fmt(&pre, self.events().await)
     }
 
+    /// wrong-type send through `cast` (kind 0), `ActorCell::send_message` (1) or `call` (2)
+    async fn bad(&mut self, a: usize, kind: u8) -> String {
+        if a >= self.actors.len() {
+            return "bad-actor".into();
+        }
+        let cell = self.actors[a].r.get_cell();
+        let wrong: ActorRef<Wrong> = ActorRef::from(cell.clone());
+        let res = match kind {
+            0 => match wrong.cast(Wrong::C) {
+                Err(ractor::MessagingErr::InvalidActorType) => "invalid-type".to_string(),
+                Ok(()) => "accepted".into(),
+                Err(_) => "other-err".into(),
+            },
+            1 => match cell.send_message(Wrong::C) {
+                Err(ractor::MessagingErr::InvalidActorType) => "invalid-type".to_string(),
+                Ok(()) => "accepted".into(),
+                Err(_) => "other-err".into(),
+            },
+            _ => match wrong.call(Wrong::W, Some(Duration::from_millis(5))).await {
+                Err(ractor::MessagingErr::InvalidActorType) => "invalid-type".to_string(),
+                Ok(_) => "accepted".into(),
+                Err(_) => "other-err".into(),
+            },
+        };
+        quiesce().await;
+        let was_alive = self.actors[a].alive;
+        self.refresh_alive();
+        let pre = format!("{res} {}", if was_alive && !self.actors[a].alive { "actor-died" } else { "undisturbed" });
+        Self::fmt(&pre, self.events().await)
+    }
+
     async fn exit(&mut self, a: usize) -> String {
         if a >= self.actors.len() {
             return "bad-actor".into();
@@ -475,6 +513,9 @@ impl World {
                 Some(act) => self.later(p.parse().unwrap_or(u64::MAX), act).await,
                 None => "bad-op".into(),
             },
+            ["badcast", a] => self.bad(a.parse().unwrap_or(99), 0).await,
+            ["badsend", a] => self.bad(a.parse().unwrap_or(99), 1).await,
+            ["badcall", a] => self.bad(a.parse().unwrap_or(99), 2).await,
             ["exit", a] => self.exit(a.parse().unwrap_or(99)).await,
             ["stop", a, act] => match Act::parse(act) {
                 Some(act) => self.stop(a.parse().unwrap_or(99), act).await,
@@ -530,7 +571,8 @@ async fn gen_case(log: &mut Log, st: &mut Stats, rng: &mut Rng, len: u64) {
             }
             76..=83 => format!("fcall {a} {} {}{}", rng.below(n as u64), gen_timeout(rng), if rng.chance(1, 2) { " m" } else { "" }),
             84..=91 => format!("advance {}", rng.pick(&[1u64, 1, 2, 3, 7])),
-            92..=94 => format!("exit {a}"),
+            92 => format!("{} {a}", rng.pick(&["badcast", "badsend", "badcall"])),
+            93..=94 => format!("exit {a}"),
             95..=97 => format!("stop {a} {}", gen_act(rng).show()),
             _ => format!("drain {a}"),
         };
